@@ -187,7 +187,7 @@ Proof.
   eapply ops_c01_cons; [vm_compute; reflexivity | split; [apply co_quiet; [exact I | now apply Nb] | exact I] |].
   eapply ops_c01_cons; [vm_compute; reflexivity | split; [apply co_quiet; [exact I | now apply Nb] | vm_compute; discriminate] |].
   eapply ops_c01_cons; [vm_compute; reflexivity | split; [apply co_quiet; [exact I | now apply Na] | vm_compute; discriminate] |].
-  eapply ops_c01_cons; [vm_compute; reflexivity | split; [|intros _; split; [right; vm_compute; reflexivity | reflexivity]] |].
+  eapply ops_c01_cons; [vm_compute; reflexivity | split; [|intros _; split; [right; vm_compute; reflexivity | split; [reflexivity | vm_compute; reflexivity]]] |].
   { eapply co_rename_dir; try (now apply Na); try reflexivity; try (vm_compute; reflexivity);
       try (right; vm_compute; reflexivity); try (vm_compute; discriminate). }
   eapply ops_c01_cons; [vm_compute; reflexivity | split; [|intros H; vm_compute in H; discriminate] |].
